@@ -793,7 +793,7 @@ Proof.
   - intros [c [Hc [_ [K _]]]]. rewrite HC in Hc.
     assert (Ec : c = [(calc_id ex_fr ex_u0, ex_u0); (calc_id ex_fr ex_u1, ex_u1)]) by congruence.
     assert (Hin : In (calc_id ex_fr ex_u0) (listing ex_f9_fs)).
-    { apply K. rewrite Ec. left. reflexivity. }
+    { apply (proj1 (K (calc_id ex_fr ex_u0))). rewrite Ec. left. reflexivity. }
     rewrite HL in Hin. destruct Hin as [H|[]]. exact (ex_ids_differ (eq_sym H)).
 Qed.
 
@@ -805,7 +805,7 @@ Proof.
   assert (Ew : wsv ex_ls ex_f9_fs (calc_id ex_fr ex_u1) = Some ex_u1) by (vm_compute; reflexivity).
   assert (Ewv : w = ex_u1) by congruence. subst w.
   unfold file_vals in Hv. rewrite HC in Hv. simpl in Hv. destruct Hv as [<-|[<-|[]]]; [|reflexivity].
-  exfalso. exact (ex_ids_differ Hc).
+  exfalso. unfold Cache.cid in Hc. apply ex_ids_differ. exact Hc.
 Qed.
 
 (* ================================================================ E. licence for the correspondence *)
